@@ -302,3 +302,16 @@ func ghostEntryKey(s *KeyedStateStore, key []byte) []byte { _, d := s.decodeKey(
 //@     invariant dbReady(s.db)
 //@   loop 2:
 //@     invariant dbReady(s.db)
+
+// processEventBatch: one state fetch per distinct key of the batch, all fetches before the
+// handler call, all mutations after it, each result applied under the key the handler named.
+//@ func Operator.processEventBatch
+//@   property C03
+//@   nosafety
+//@   order ApplyMutations after ProcessEventBatch
+//@   atcall GetState: same(arg0, rxnEvent.key) && !has(keyStateMap, string(rxnEvent.key))
+//@   atcall ApplyMutations: same(arg0, keyResult.Key) && same(arg1, keyResult.StateMutationNamespaces)
+//@   atcall ProcessEventBatch: same(arg1.KeyStates, keyStates) && same(arg1.Events, events)
+//@   loop 0:
+//@     invariant len(events) == len(batchEvents) && forall(0, idx_, func(i int) bool { return events[i] == batchEvents[i].event && has(keyStateMap, string(batchEvents[i].key)) })
+//@     invariant forall(func(k string) bool { return has(keyStateMap, k) ==> keyStateMap[k] != nil && string(keyStateMap[k].Key) == k })
